@@ -78,3 +78,33 @@ CHECKS["C15"] = {
     ],
     "expected_probes": ["runs_with_cache_hits", "runs_with_full_caches"],
 }
+
+FSNAMES = ["os.File", "os.Open", "os.OpenFile", "os.CreateTemp", "os.MkdirTemp", "os.Remove", "os.RemoveAll", "os.Rename", "os.MkdirAll", "os.Mkdir",
+           "os.Symlink", "os.Chmod", "os.WriteFile", "os.ReadFile", "os.Stat", "os.Lstat", "os.ReadDir", "filepath.WalkDir"]
+
+STOR_ASSUME = [
+    "simdb stands in for the source and target databases: ids with gaps, property values from the domain a driver hands back (strings incl. non-BMP and escapes, bools, null, integral numbers as int64 up to 2^53, finite floats, nested lists/maps)",
+    "simos forwards to a real tmpfs directory, so rename atomicity, O_EXCL, Lstat and symlink semantics are the kernel's; the interposer itself is trusted",
+    "the instrumenter's os.X -> simos.X rewrite is a pure substitution (retriever's own tests pass under the overlay)",
+    "sampling over databases / options / fault positions: a clean batch is evidence, not proof",
+]
+
+CHECKS["C18"] = {
+    "engine": "storage",
+    "harness": "c18",
+    "packages": ["retriever"],
+    "rules": "fs",
+    "fsnames": FSNAMES,
+    "level": "exploration",
+    "budget": {"quick": 25, "thorough": 600},
+    "gomaxprocs": "1",
+    "rule": "one evaluation = one seeded fault-free round trip through the real retriever under the simulated file system: database of 1-3 graphs (names with spaces, unicode, '/', dots), 0-8 nodes with id gaps and 0-3 kinds, 0-12 relationships (parallel, self loops), JSON-domain property values; codec none/gzip/zstd; shard and batch sizes in {1,2,3,5,n,n+1}; path directory / tar+UnpackTar / encrypted archive+Unpack / Load(ArchiveReader); independent load batch size; benign short reads. "
+            "Every run is non-trivial (a real dump and load); distinct = distinct workload hashes, union over workers.",
+    "real": ["retriever (Dump, fragments, manifest, tar, encrypted archive, Unpack, Load, Verify, metrics)", "archive/tar", "compress/gzip", "crypto/hpke", "klauspost/compress/zstd"],
+    "stubs": ["simdb (source and target graph.Database)", "simos (pass-through interposer, benign short reads)", "short-read stream wrapper"],
+    "assumptions": STOR_ASSUME + [
+        "Verify is only required to fail for edits that change what the manifest's metrics contain (counts, kind and degree histograms); property-only edits are not asserted",
+        "node correspondence is any isomorphism (load order is tried first)",
+    ],
+    "expected_probes": ["path_dir", "path_tar", "path_unpack", "path_loadarchive", "verify_rejected_edit"],
+}
